@@ -13,6 +13,8 @@ Inductive cpat :=
 | CPAny | CPFastStr | CPString | CPStr | CPVoid | CPU8 | CPBool | CPI8 | CPI16 | CPI32 | CPI64 | CPUInt32 | CPUInt64
 | CPF32 | CPF64 | CPOrderedF64 | CPUuid | CPBytes | CPLazyStaticRef | CPStaticRef | CPVec | CPArray | CPSet | CPBTreeSet
 | CPMap | CPBTreeMap | CPAdtStruct | CPAdtEnum | CPAdtNewType | CPArc
+| CPStaticRefColl (* StaticRef(Set | BTreeSet | Map | BTreeMap): as a PATTERN, the arm `StaticRef(inner) if matches!( **inner, ..)`;
+                     as the kind of a type, a StaticRef whose inner type is a set or map (an unguarded StaticRef pattern matches it too) *)
 | CPLazyMap.      (* LazyStaticRef(Map | BTreeMap): as a PATTERN, the arm `LazyStaticRef(map) if matches!( **map, Map | BTreeMap)`;
                      as the kind of a type, a LazyStaticRef whose inner type is a map (an unguarded LazyStaticRef pattern matches it too) *)
 
@@ -31,7 +33,7 @@ Definition cpat_idx (c : cpat) : nat :=
   | CPAny => 0 | CPFastStr => 1 | CPString => 2 | CPStr => 3 | CPVoid => 4 | CPU8 => 5 | CPBool => 6 | CPI8 => 7 | CPI16 => 8
   | CPI32 => 9 | CPI64 => 10 | CPUInt32 => 11 | CPUInt64 => 12 | CPF32 => 13 | CPF64 => 14 | CPOrderedF64 => 15 | CPUuid => 16
   | CPBytes => 17 | CPLazyStaticRef => 18 | CPStaticRef => 19 | CPVec => 20 | CPArray => 21 | CPSet => 22 | CPBTreeSet => 23
-  | CPMap => 24 | CPBTreeMap => 25 | CPAdtStruct => 26 | CPAdtEnum => 27 | CPAdtNewType => 28 | CPArc => 29 | CPLazyMap => 30
+  | CPMap => 24 | CPBTreeMap => 25 | CPAdtStruct => 26 | CPAdtEnum => 27 | CPAdtNewType => 28 | CPArc => 29 | CPLazyMap => 30 | CPStaticRefColl => 31
   end%nat.
 Definition cpat_eqb (a b : cpat) : bool := Nat.eqb (cpat_idx a) (cpat_idx b).
 
@@ -41,6 +43,7 @@ Definition cmatch (pat k : cpat) : bool :=
   match pat with
   | CPAny => true
   | CPLazyStaticRef => cpat_eqb CPLazyStaticRef k || cpat_eqb CPLazyMap k
+  | CPStaticRef => cpat_eqb CPStaticRef k || cpat_eqb CPStaticRefColl k
   | _ => cpat_eqb pat k
   end.
 
